@@ -676,7 +676,8 @@ ScanBody(s, w, start, del) ==
       s2    == LastOr(st2, s1)
       st3   == IF del THEN ScanUnspend(s2, w, snap, lck, 1) ELSE <<>>
       s3    == LastOr(st3, s2)
-      unc   == AnySeq({k \in DOMAIN snap : snap[k].st = "Unconfirmed"})
+      \* (not the records whose commitment the node reported: those only wait for their account's refresh)
+      unc   == AnySeq({k \in DOMAIN snap : snap[k].st = "Unconfirmed" /\ ~\E o \in owned : Matches(s, w, o) /\ s.reg[o].key = k})
       st4   == IF del THEN ScanDelUnconfirmed(s3, w, snap, unc, 1) ELSE <<>>
       s4    == LastOr(st4, s3)
       pas   == {s.reg[mis[i]].pa : i \in DOMAIN mis}
